@@ -22,7 +22,7 @@ def run(ctx):
     n = RS.check_v2_formula(ctx, led, "C03.formula")
     led.require_min("C03.formula", n, 3, "formula comparisons")
     nsites, keys = RS.check_leaves(ctx, led, 2, "C03.leaf")
-    led.require_min("C03.leaf", nsites, 12, "get_value call sites with literal keys")
+    led.require_min("C03.leaf", nsites, 3, "get_value call sites")
     led.require_min("C03.leaf.keys", len(keys), 11, "distinct weighted metrics")
     RS.check_scores_out(ctx, led, 2, "C03.out")
     RS.check_deps(ctx, led, 2, "C03.deps")
